@@ -23,6 +23,8 @@ func (rr *SIG) Sign(k crypto.Signer, m *Msg) ([]byte, error) {
 
 	rr.Hdr = RR_Header{Name: ".", Rrtype: TypeSIG, Class: ClassANY, Ttl: 0}
 	rr.OrigTtl, rr.TypeCovered, rr.Labels = 0, 0, 0
+	// A signature left over from an earlier Sign must not end up in the RDATA that is signed.
+	rr.Signature = ""
 
 	// PackBuffer packs into buf only if it can hold the uncompressed message plus one
 	// octet; m.Len() is the compressed length when m.Compress is set.
